@@ -185,7 +185,7 @@ def run_unit(u):
             cfg = _cfg(pf, apf, names, anames, bool(nsmap) and '' in nsmap)
             for _s in range(6):
                 ast = sels.gen_list(rng, rng.choice([0, 1, 1, 2]), cfg)
-                st, info = cases.compare_select(sv, case, ast, match_law=True)
+                st, info = cases.compare_select(sv, case, ast, cases.respelled(rng, ast, .1), match_law=True)
                 res['evals'] += 1
                 bump('how:' + how)
                 bump('map:%d' % mi)
